@@ -674,3 +674,234 @@ func predicateFalseWhenFieldZero(fn *ssa.Function, field string) bool {
 	walk(fn.Blocks[0], nil)
 	return okAll && nret > 0
 }
+
+// relOff evaluates v as anchor + constant, where isAnchor recognises the anchor value.
+// constLike: a constant, or a load of a package-level variable that is only
+// ever assigned one constant (in its initialiser), seen through conversions.
+var constLikeCtx *Ctx
+
+func constLike(v ssa.Value) (int64, bool) {
+	v = stripConv(v)
+	if k, ok := constInt(v); ok {
+		return k, true
+	}
+	if ld, ok := v.(*ssa.UnOp); ok && ld.Op == token.MUL && constLikeCtx != nil {
+		if g, ok := ld.X.(*ssa.Global); ok {
+			sts := constLikeCtx.census().globalStores[g]
+			if len(sts) == 1 {
+				if k, ok := constInt(sts[0].val); ok {
+					return k, true
+				}
+				// sizeOfX = int(reflect.TypeOf(x).Size()): the size of x's static type
+				if call, ok := stripConv(sts[0].val).(*ssa.Call); ok && call.Call.IsInvoke() && call.Call.Method.Name() == "Size" {
+					if tc, ok := call.Call.Value.(*ssa.Call); ok && tc.Call.StaticCallee() != nil && funcFullName(tc.Call.StaticCallee()) == "reflect.TypeOf" {
+						if mi, ok := tc.Call.Args[0].(*ssa.MakeInterface); ok && constLikeCtx.Root.TypesSizes != nil {
+							return constLikeCtx.Root.TypesSizes.Sizeof(mi.X.Type()), true
+						}
+					}
+				}
+			}
+		}
+	}
+	return 0, false
+}
+
+func relOff(v ssa.Value, isAnchor func(ssa.Value) bool, depth int) (int64, bool) {
+	if depth > 24 {
+		return 0, false
+	}
+	if isAnchor(v) {
+		return 0, true
+	}
+	switch x := v.(type) {
+	case *ssa.Convert:
+		return relOff(x.X, isAnchor, depth+1)
+	case *ssa.BinOp:
+		switch x.Op {
+		case token.ADD:
+			if k, ok := constLike(x.Y); ok {
+				if a, ok := relOff(x.X, isAnchor, depth+1); ok {
+					return a + k, true
+				}
+			}
+			if k, ok := constLike(x.X); ok {
+				if a, ok := relOff(x.Y, isAnchor, depth+1); ok {
+					return a + k, true
+				}
+			}
+		case token.SUB:
+			if k, ok := constLike(x.Y); ok {
+				if a, ok := relOff(x.X, isAnchor, depth+1); ok {
+					return a - k, true
+				}
+			}
+		}
+	case *ssa.Phi:
+		// `pos -= 4` chains in straight-line code produce no phi; a phi means a loop: give up
+	}
+	return 0, false
+}
+
+// flowsTo: does value v reach (through conversions, arithmetic-free copies and
+// parameters of in-package callees) a use accepted by sink?
+func flowsTo(c *Ctx, v ssa.Value, sink func(user ssa.Instruction, v ssa.Value) bool, depth int, seen map[ssa.Value]bool) bool {
+	if depth > 6 || seen[v] || v.Referrers() == nil {
+		return false
+	}
+	seen[v] = true
+	for _, ref := range *v.Referrers() {
+		if sink(ref, v) {
+			return true
+		}
+		switch x := ref.(type) {
+		case *ssa.Convert:
+			if flowsTo(c, x, sink, depth+1, seen) {
+				return true
+			}
+		case *ssa.ChangeType:
+			if flowsTo(c, x, sink, depth+1, seen) {
+				return true
+			}
+		case ssa.CallInstruction:
+			sc := x.Common().StaticCallee()
+			if sc == nil || !c.inRoot(sc) || sc.Blocks == nil {
+				continue
+			}
+			for i, a := range x.Common().Args {
+				if a == v && i < len(sc.Params) && flowsTo(c, sc.Params[i], sink, depth+1, seen) {
+					return true
+				}
+			}
+		}
+	}
+	return false
+}
+
+func init() {
+	register(&Rule{
+		Name:  "TRAILER-ROLES",
+		Floor: 2,
+		Doc:   "the fixed trailer in front of the stored index is [byte length of the chunk offsets][number of chunks] (chunkedDocumentCoder.Write emits them in that order): in the loader the 32-bit word read from storedIndexOffset-4 is used as the element COUNT of the offsets (slice length / loop bound) and the word read from storedIndexOffset-8 as the byte LENGTH that locates their start (subtracted from a position) — however the two words are fetched (two reads walking backwards, or one 8-byte read sliced in two)",
+		Run: func(c *Ctx, scope string, r *Report) {
+			fn := c.MustFn("(*Segment).loadStoredFieldChunk")
+			constLikeCtx = c
+			isAnchor := func(v ssa.Value) bool {
+				ld, ok := v.(*ssa.UnOp)
+				return ok && ld.Op == token.MUL && strings.HasSuffix(accessPath(ld.X), ".footer.storedIndexOffset")
+			}
+			type word struct {
+				pos int64
+				val ssa.Value
+				at  token.Pos
+			}
+			var words []word
+			fns := []*ssa.Function{fn}
+			for _, sc := range staticCallees(fn) {
+				if c.inRoot(sc) && sc.Blocks != nil {
+					fns = append(fns, sc)
+				}
+			}
+			for _, f := range fns {
+				for _, b := range f.Blocks {
+					for _, ins := range b.Instrs {
+						call, ok := ins.(*ssa.Call)
+						if !ok || call.Call.StaticCallee() == nil || call.Call.StaticCallee().Name() != "Uint32" || !strings.Contains(funcFullName(call.Call.StaticCallee()), "encoding/binary") {
+							continue
+						}
+						arg := call.Call.Args[len(call.Call.Args)-1]
+						var low int64
+						if sl, ok := arg.(*ssa.Slice); ok {
+							if sl.Low != nil {
+								k, ok := constLike(sl.Low)
+								if !ok {
+									continue
+								}
+								low = k
+							}
+							arg = sl.X
+						}
+						ex, ok := arg.(*ssa.Extract)
+						if !ok {
+							continue
+						}
+						rd, ok := ex.Tuple.(*ssa.Call)
+						if !ok || !isDataRead(&rd.Call) {
+							continue
+						}
+						start := rd.Call.Args[1]
+						// through a read helper: position = the helper's parameter bound at the call
+						if p, isParam := stripConv(start).(*ssa.Parameter); isParam && f != fn {
+							for _, site := range c.callsTo(f) {
+								if site.Parent() != fn {
+									continue
+								}
+								if off, ok := relOff(argFor(site.Common(), p), isAnchor, 0); ok {
+									if sc, ok := site.(*ssa.Call); ok {
+										words = append(words, word{off + low, tupleFirst(sc), site.Pos()})
+									}
+								}
+							}
+							continue
+						}
+						if off, ok := relOff(start, isAnchor, 0); ok {
+							words = append(words, word{off + low, call, call.Pos()})
+						}
+					}
+				}
+			}
+			isCountUse := func(user ssa.Instruction, v ssa.Value) bool {
+				switch x := user.(type) {
+				case *ssa.MakeSlice:
+					return x.Len == v || x.Cap == v
+				case *ssa.BinOp:
+					return x.Op == token.LSS && x.Y == v // loop bound i < n
+				}
+				return false
+			}
+			isLengthUse := func(user ssa.Instruction, v ssa.Value) bool {
+				x, ok := user.(*ssa.BinOp)
+				return ok && x.Op == token.SUB && x.Y == v
+			}
+			found := map[int64]bool{}
+			for _, w := range words {
+				switch w.pos {
+				case -4:
+					found[-4] = true
+					key := fnName(fn) + "/trailer-count"
+					cnt := flowsTo(c, w.val, isCountUse, 0, map[ssa.Value]bool{})
+					ln := flowsTo(c, w.val, isLengthUse, 0, map[ssa.Value]bool{})
+					if cnt && !ln {
+						r.ok(key, fnName(fn), c.pos(w.at), "the last trailer word is used as the number of chunk offsets")
+					} else {
+						r.bad(key, fnName(fn), c.pos(w.at), "the word at storedIndexOffset-4 is the number of chunks, but it is not used as the element count of the offsets (or it is used as a byte length): the two trailer words are swapped")
+					}
+				case -8:
+					found[-8] = true
+					key := fnName(fn) + "/trailer-length"
+					cnt := flowsTo(c, w.val, isCountUse, 0, map[ssa.Value]bool{})
+					ln := flowsTo(c, w.val, isLengthUse, 0, map[ssa.Value]bool{})
+					if ln && !cnt {
+						r.ok(key, fnName(fn), c.pos(w.at), "the word before it is used as the byte length that locates the offsets")
+					} else {
+						r.bad(key, fnName(fn), c.pos(w.at), "the word at storedIndexOffset-8 is the byte length of the chunk offsets, but it is not used to locate them (or it is used as a count): the two trailer words are swapped")
+					}
+				}
+			}
+			if !found[-4] || !found[-8] {
+				r.undecided(fnName(fn)+"/trailer", fnName(fn), c.pos(fn.Pos()), "cannot locate the two 32-bit trailer words relative to footer.storedIndexOffset")
+			}
+		},
+	})
+}
+
+// tupleFirst: result #0 of a multi-result call (the Extract), or the call itself.
+func tupleFirst(call *ssa.Call) ssa.Value {
+	if call.Referrers() != nil {
+		for _, ref := range *call.Referrers() {
+			if ex, ok := ref.(*ssa.Extract); ok && ex.Index == 0 {
+				return ex
+			}
+		}
+	}
+	return call
+}
